@@ -216,7 +216,7 @@ func runCliImpl(c *Ctx, cmd string, flags VL, files VL) Val {
 	names := make([]string, len(files))
 	for i, f := range files {
 		names[i] = fmt.Sprintf("in%d.car", i)
-		if cmd == "filter" && i == 1 {
+		if (cmd == "filter" || cmd == "getdag") && i == 1 {
 			names[i] = "out.car"
 		}
 		if b, ok := f.(VB); ok {
@@ -313,6 +313,22 @@ func runCliImpl(c *Ctx, cmd string, flags VL, files VL) Val {
 	case "concat":
 		args := []string{"concat", "-o", "out.car", "--version", strconv.FormatUint(vnum(flags[0]), 10)}
 		args = append(args, names...)
+		r := carRun(c, dir, args...)
+		return VL{VT(r.status), fileVal(filepath.Join(dir, "out.car")), postVal(c, dir, "out.car", r.status == "ok")}
+	case "getdag":
+		// (version root seljson strict trace); files (in out)
+		args := []string{"get-dag"}
+		if sj, ok := flags[2].(VB); ok {
+			args = append(args, "--selector", string(sj))
+		}
+		if vnum(flags[3]) != 0 {
+			args = append(args, "--strict")
+		}
+		args = append(args, "--version", strconv.FormatUint(vnum(flags[0]), 10), names[0])
+		if rc, ok := flags[1].(VB); ok {
+			args = append(args, cidString(rc))
+		}
+		args = append(args, "out.car")
 		r := carRun(c, dir, args...)
 		return VL{VT(r.status), fileVal(filepath.Join(dir, "out.car")), postVal(c, dir, "out.car", r.status == "ok")}
 	case "verify":
